@@ -4,7 +4,9 @@
 The claim "no input reaches a panic" is only as good as the list of panic sites the model has a `Panic site`
 branch for.  This scanner lists, per anchored file and per function (test modules cut off), every
 unwrap / expect / unreachable! / panic! / assert* / debug_assert* / unsafe / from_utf8_unchecked / RefCell
-borrow_mut / index or slice expression, with a normalised source line.  The committed inventory coq/Model/sites.json maps each to the
+borrow_mut / index or slice expression, with the statement (match arm, field) it stands in, spelled without
+layout: comments, line breaks, white space, attributes and trailing commas do not matter, so a reformatted file has the
+same inventory; any other change of a statement that holds a site does.  The committed inventory coq/Model/sites.json maps each to the
 model's `site` constructor (Base/Winnow.v) or says why it needs none.  A site that appears, disappears, changes
 or moves to another function makes the inventory differ: the tie is reported broken (and the check then
 searches for a failing input as usual).
@@ -14,6 +16,9 @@ searches for a failing input as usual).
   scan_sites.py --update   rewrite coq/Model/sites.json keeping existing `model` annotations
 """
 import json, os, re, sys
+
+sys.path.insert(0, os.path.dirname(os.path.abspath(__file__)))
+import gen_consts
 
 REPO = os.environ.get("VERIF_REPO", "/repo")
 HERE = os.path.dirname(os.path.abspath(__file__))
@@ -53,17 +58,10 @@ KINDS = [
     ("assert", re.compile(r"(?<![_a-z])assert(_eq|_ne)?!")),
     ("unsafe", re.compile(r"\bunsafe\b")),
     ("refcell", re.compile(r"\.borrow_mut\(\)")),
-    ("index", re.compile(r"[A-Za-z0-9_\)\]]\[[^\]\n]*\]")),
+    ("index", re.compile(r"[A-Za-z0-9_\)\]]\[[^\]]*\]")),
 ]
 FN = re.compile(r"\bfn\s+([A-Za-z0-9_]+)")
-NOT_INDEX = re.compile(r"^\s*#!?\[|\[u8; ?\d+\]|vec!\[")
-TYPE_BRACKET = re.compile(r"&(?:'[a-z]+ )?(?:mut )?\[[A-Za-z0-9_:<>&' ]*\]|: ?\[[^\]]*\]|-> ?\[[^\]]*\]|<\[[^\]]*\]>")
-
-
-def strip_comment(line):
-    # good enough for this code base: no `//` inside string literals on site lines except messages after the site
-    i = line.find("//")
-    return line if i < 0 else line[:i]
+TYPE_BRACKET = re.compile(r"&(?:'[a-z_]+ ?)?(?:mut ?)?\[[A-Za-z0-9_:<>&' ;]*\]|: ?\[[^\]]*\]|-> ?\[[^\]]*\]|<\[[^\]]*\]>|\[u8; ?\d+\]")
 
 
 ITEM = re.compile(r"^(pub(\([a-z]+\))? )?(unsafe )?(fn|impl|struct|enum|mod|const|static|trait|type|use|macro_rules!)\b")
@@ -92,32 +90,89 @@ def cut_tests(text):
     return "\n".join(lines[:first])
 
 
+ATTR = re.compile(r"#!?\[(?:[^\[\]]|\[[^\[\]]*\])*\]")
+
+
+def segments(text):
+    """split comment-free source into statement-sized pieces, independent of line layout: a piece ends at `{`, at `}`,
+    and at `;` or `,` outside parentheses / brackets (so a `let`, an expression statement, one match arm, one field).
+    String and char literals are skipped over.  -> list of piece texts, in source order"""
+    out, cur, depth = [], [], 0
+    i, n = 0, len(text)
+    while i < n:
+        c = text[i]
+        if c == '"' or (c in "br" and re.match(r'b?r#*"|b"', text[i:i + 8])):
+            m = re.match(r'b?r(#*)"', text[i:i + 40])
+            if m:
+                end = text.find('"' + m.group(1), i + len(m.group(0)))
+                j = n if end < 0 else end + 1 + len(m.group(1))
+            else:
+                j = i + (2 if c == "b" else 1)
+                while j < n and text[j] != '"':
+                    j += 2 if text[j] == "\\" else 1
+                j += 1
+            cur.append(text[i:j]); i = j
+            continue
+        if c == "'":
+            m = re.match(r"'(?:\\x[0-9a-fA-F]{2}|\\u\{[0-9a-fA-F_]+\}|\\.|[^'\\\n])'", text[i:i + 16])
+            if m:
+                cur.append(m.group(0)); i += len(m.group(0))
+                continue
+        if c in "([":
+            depth += 1
+        elif c in ")]":
+            depth = max(0, depth - 1)
+        if c in "{}" or (c in ";," and depth == 0):
+            if c in "{}":
+                depth = 0
+            out.append("".join(cur)); cur = []
+        else:
+            cur.append(c)
+        i += 1
+    out.append("".join(cur))
+    return out
+
+
+def despace(t):
+    """white space kept only between two word characters; a trailing comma before a closing bracket dropped"""
+    t = re.sub(r"(?<![A-Za-z0-9_]) | (?![A-Za-z0-9_])", "", t)
+    return re.sub(r",([)\]])", r"\1", t)
+
+
 def scan_file(rel):
     path = os.path.join(REPO, rel)
     text = open(path, encoding="utf-8").read()
-    text = cut_tests(text)
+    text = gen_consts.strip_comments(cut_tests(text))
     out = []
     fn = "<top>"
-    for raw in text.split("\n"):
-        line = strip_comment(raw)
-        m = FN.search(line)
+    pieces = segments(text)
+    for idx, piece in enumerate(pieces):
+        spaced = re.sub(r"\s+", " ", ATTR.sub(" ", piece)).strip()      # layout reduced to single spaces: what the kinds are looked for in
+        if not spaced:
+            continue
+        m = FN.search(spaced)
         if m:
             fn = m.group(1)
-        norm = re.sub(r"\s+", " ", line.strip())
-        if not norm:
-            continue
+        norm = despace(spaced)                                            # the layout-free spelling: what identifies the site
         for kind, rx in KINDS:
             if kind == "index":
-                if NOT_INDEX.search(line):
-                    continue
-                hits = [h for h in rx.findall(TYPE_BRACKET.sub("", line))]
-                if not hits:
-                    continue
-            elif not rx.search(line):
+                hay = TYPE_BRACKET.sub("", spaced)
+            elif kind == "assert":
+                hay = re.sub(r"debug_assert(_eq|_ne)?!", "", spaced)
+            else:
+                hay = spaced
+            hits = list(rx.finditer(hay))
+            if not hits:
                 continue
-            if kind == "assert" and "debug_assert" in line and not re.search(r"(?<![_a-z])assert(_eq|_ne)?!", line.replace("debug_assert", "")):
-                continue
-            out.append({"file": rel, "fn": fn, "kind": kind, "text": norm[:160]})
+            # the piece, cut to a window around the first hit when long; `xN` when the kind occurs N times in it
+            pos = max(0, norm.find(despace(hits[0].group(0))))
+            lo = max(0, pos - 70) if len(norm) > 170 else 0
+            txt = norm[lo:lo + 170] + (" x%d" % len(hits) if len(hits) > 1 else "")
+            if kind == "unsafe" and re.search(r"\bunsafe$", norm):
+                # an `unsafe {` block: what it does is the next piece
+                nxt = next((despace(re.sub(r"\s+", " ", q).strip()) for q in pieces[idx + 1:] if q.strip()), "")
+                txt += "{" + nxt[:100]
+            out.append({"file": rel, "fn": fn, "kind": kind, "text": txt})
     return out
 
 
